@@ -342,8 +342,21 @@ def _operand_truth(idx: Index, res: Result) -> int:
         n_inst += 1
         bad = None
         for t in _test_positions(fi.node):
+            # `isinstance(x, (int, float)) and x == 0`: the comparison is only reached for plain numbers
+            numeric_guarded: Set[int] = set()
+            for bo in [b for b in ast.walk(t) if isinstance(b, ast.BoolOp) and isinstance(b.op, ast.And)]:
+                guarded: Set[str] = set()
+                for v in bo.values:
+                    if isinstance(v, ast.Call) and call_name(v) == "isinstance" and isinstance(v.args[0], ast.Name) and \
+                            {x.id for x in ast.walk(v.args[1]) if isinstance(x, ast.Name)} <= {"int", "float", "bool", "complex"}:
+                        guarded.add(v.args[0].id)
+                    else:
+                        for c in ast.walk(v):
+                            if isinstance(c, ast.Compare) and all(not isinstance(s_, ast.Name) or s_.id in guarded or s_.id not in operands
+                                                                   for s_ in [c.left] + list(c.comparators)):
+                                numeric_guarded.add(id(c))
             for c in ast.walk(t):
-                if isinstance(c, ast.Compare) and any(isinstance(o, OVERLOADED_CMP) for o in c.ops):
+                if isinstance(c, ast.Compare) and any(isinstance(o, OVERLOADED_CMP) for o in c.ops) and id(c) not in numeric_guarded:
                     sides = [c.left] + list(c.comparators)
                     hit = [s_ for s_ in sides if isinstance(s_, ast.Name) and s_.id in operands]
                     if hit:
@@ -652,26 +665,48 @@ def _flatten(parts: Parts):
             yield from _flatten(p.body)
 
 
-def _sweep(idx: Index, res: Result) -> None:
+def sweep_loop(idx: Index):
+    """(function, for-loop, timerange call, loop variable, stores into self.results[<equation>]) of the batch sweep."""
+    from ..util import deref, table_row_of
     sim = idx.func(SDSIM, "SdSimulation._SdSimulation__simulate") if idx.try_func(SDSIM, "SdSimulation._SdSimulation__simulate") \
         else idx.func(SDSIM, "SdSimulation.__simulate")
-    loops = [n for n in walk_no_nested(sim.node) if isinstance(n, ast.For) and isinstance(n.iter, ast.Call) and call_name(n.iter) == "timerange"]
-    if len(loops) != 1 or not isinstance(loops[0].target, ast.Name):
+    loops = []
+    for n in walk_no_nested(sim.node):
+        if isinstance(n, ast.For):
+            it = deref(sim.node, n.iter)
+            if isinstance(it, ast.Call) and call_name(it) == "timerange":
+                loops.append((n, it))
+    if len(loops) != 1 or not isinstance(loops[0][0].target, ast.Name):
         raise AnalysisError("SdSimulation.__simulate: sweep loop over timerange() not found")
-    lp = loops[0]
-    v = lp.target.id
-    args = lp.iter.args
+    lp, rng = loops[0]
+    eqp = params(sim.node)[1]
+    stores = []
+    for n in ast.walk(lp):
+        if isinstance(n, ast.Assign) and isinstance(n.targets[0], ast.Subscript):
+            row = table_row_of(sim.node, n.targets[0].value)
+            if row and row[0] == "self.results" and src(row[1]) == eqp:
+                stores.append(n)
+    return sim, lp, rng, lp.target.id, stores
+
+
+def _sweep(idx: Index, res: Result) -> None:
+    sim, lp, rng, v, stores = sweep_loop(idx)
+    args = rng.args
     ps = params(sim.node)
     res.check("SWEEP", "sweep starts at the requested start with the model's dt", len(args) >= 3 and src(args[0]) == "start"
-              and src(args[2]) == "self.mod.dt", sim.loc(lp), sim.qual, src(lp.iter),
-              "the sweep is %s" % src(lp.iter), key="SWEEP/__simulate/range")
+              and src(args[2]) == "self.mod.dt", sim.loc(lp), sim.qual, src(rng),
+              "the sweep is %s" % src(rng), key="SWEEP/__simulate/range")
     ev = [c for c in iter_calls(lp) if call_name(c) == "equation" and (dotted(c.func.value) or "") == "self.mod"]
     ok = len(ev) == 1 and [src(a) for a in ev[0].args] == [ps[1], v]
     res.check("SWEEP", "each grid time is evaluated once: mod.equation(name, i)", ok, sim.loc(lp), sim.qual, src(ev[0]) if ev else "",
               "the sweep does not evaluate the requested equation at the loop time", key="SWEEP/__simulate/evaluate")
-    stores = [n for n in ast.walk(lp) if isinstance(n, ast.Assign) and isinstance(n.targets[0], ast.Subscript)
-              and isinstance(n.targets[0].value, ast.Name) and n.targets[0].value.id == "dic_t"]
-    ok = len(stores) == 1 and src(stores[0].targets[0].slice) == v and src(stores[0].value) == "result"
+    # the value variable: what mod.equation(...) was assigned to
+    valvars = {n.targets[0].id for n in ast.walk(lp) if isinstance(n, ast.Assign) and isinstance(n.targets[0], ast.Name)
+               and any(c is x for c in ev for x in ast.walk(n.value))}
+    for _ in range(3):     # values derived from it (sum(result) for the '*' equations, a renamed copy)
+        valvars |= {n.targets[0].id for n in ast.walk(lp) if isinstance(n, ast.Assign) and isinstance(n.targets[0], ast.Name)
+                    and {x.id for x in ast.walk(n.value) if isinstance(x, ast.Name)} & valvars}
+    ok = len(stores) == 1 and src(stores[0].targets[0].slice) == v and isinstance(stores[0].value, ast.Name) and stores[0].value.id in valvars
     res.check("SWEEP", "the value is stored under the time it was evaluated at", ok, sim.loc(stores[0]) if stores else sim.loc(), sim.qual,
               norm_stmt(stores[0]) if stores else "", "the result table is keyed by %s, the value was evaluated at %s"
               % (src(stores[0].targets[0].slice) if stores else "?", v), key="SWEEP/__simulate/store-key")
@@ -692,7 +727,9 @@ def _sweep(idx: Index, res: Result) -> None:
               key="SWEEP/memoize/eval-arg")
     sts = [n for n in walk_no_nested(memo.node) if isinstance(n, ast.Assign) and isinstance(n.targets[0], ast.Subscript)
            and src(n.targets[0].slice) == K]
-    ok = len(sts) >= 1 and all(src(s.value) == "result" for s in sts)
+    evvars = {n.targets[0].id for n in walk_no_nested(memo.node) if isinstance(n, ast.Assign) and isinstance(n.targets[0], ast.Name)
+              and any(c is x for c in evs for x in ast.walk(n.value))}
+    ok = len(sts) >= 1 and all((isinstance(s.value, ast.Name) and s.value.id in evvars) or any(c is s.value for c in evs) for s in sts)
     res.check("SWEEP", "result stored under the key it was evaluated for", ok, memo.loc(), memo.qual, norm_stmt(sts[0]) if sts else "",
               "memoize does not store the result under the normalised key", key="SWEEP/memoize/store-key")
     for nm in ("equation", "evaluate_equation"):
